@@ -30,8 +30,8 @@ ARITY.update({k: 3 for k in TERNARY})
 
 X_VALUES = [("int", -1, []), ("int", 0, []), ("int", 2, []), ("none", 0, []), ("list", 0, []), ("list", 0, [1]),
             ("list", 0, [0, 2]), ("obj", 3, []), ("bool", 1, []), ("list", 0, [3, NONE_ELEM, 20, -1]),
-            ("list", 0, [2, 1, 30])]
-Y_VALUES = [("int", 0, []), ("int", 3, []), ("none", 0, []), ("list", 0, [2]), ("obj", 0, [])]
+            ("list", 0, [2, 1, 30]), ("amb", 0, [])]
+Y_VALUES = [("int", 0, []), ("int", 3, []), ("none", 0, []), ("list", 0, [2]), ("obj", 0, []), ("amb", 0, [])]
 
 
 def V(t: str, n: int = 0, s: Optional[list] = None) -> dict:
@@ -92,6 +92,16 @@ class Obj:
         return hash(("Obj", self.v))
 
 
+class Amb:
+    """An object whose truth value is ambiguous (bool() raises), as a numpy array with several elements."""
+
+    def __bool__(self) -> bool:
+        raise TypeError("the truth value of an Amb is ambiguous")
+
+    def __repr__(self) -> str:
+        return "Amb()"
+
+
 def py_value(v: dict, objs: Dict[int, Obj]) -> Any:
     t = v["t"]
     if t == "int":
@@ -107,7 +117,9 @@ def py_value(v: dict, objs: Dict[int, Obj]) -> Any:
     if t == "obj":
         return objs.setdefault(v["n"], Obj(v["n"]))
     if t == "cls":
-        return {1: int, 2: bool, 3: type(None), 4: list, 5: Obj, 6: type}[v["n"]]
+        return {1: int, 2: bool, 3: type(None), 4: list, 5: Obj, 6: type, 7: Amb}[v["n"]]
+    if t == "amb":
+        return objs.setdefault(-77, Amb())  # type: ignore
     raise ValueError(t)
 
 
@@ -123,7 +135,9 @@ def tla_value_of(x: Any) -> list:
     if isinstance(x, Obj):
         return ["obj", x.v, []]
     if isinstance(x, type):
-        return ["cls", {int: 1, bool: 2, type(None): 3, list: 4, Obj: 5, type: 6}.get(x, 0), []]
+        return ["cls", {int: 1, bool: 2, type(None): 3, list: 4, Obj: 5, type: 6, Amb: 7}.get(x, 0), []]
+    if isinstance(x, Amb):
+        return ["amb", 0, []]
     return ["?", 0, []]
 
 
@@ -223,13 +237,14 @@ def texts(node: dict, out: Dict[int, str]) -> None:
 
 
 def expr_cfg(sw_eager: bool, sw_or: bool, invariants: List[str], sw_allfail: bool = False, sw_nostar: bool = False,
-             sw_compleak: bool = False) -> str:
+             sw_compleak: bool = False, sw_lasttruth: bool = False) -> str:
     lines = ["SPECIFICATION ESpec", "CONSTANTS", "  CaseSpace <- MCCaseSpace",
              "  SwEagerBool = {}".format("TRUE" if sw_eager else "FALSE"),
              "  SwOrSeedTrue = {}".format("TRUE" if sw_or else "FALSE"),
              "  SwAllFailLeaks = {}".format("TRUE" if sw_allfail else "FALSE"),
              "  SwNoStarred = {}".format("TRUE" if sw_nostar else "FALSE"),
-             "  SwCompTargetLeaks = {}".format("TRUE" if sw_compleak else "FALSE")]
+             "  SwCompTargetLeaks = {}".format("TRUE" if sw_compleak else "FALSE"),
+             "  SwLastOperandTruth = {}".format("TRUE" if sw_lasttruth else "FALSE")]
     for inv in invariants:
         lines.append("INVARIANT " + inv)
     lines.append("CHECK_DEADLOCK FALSE")
@@ -433,7 +448,8 @@ def check_cases(res: CheckResult, prop_clauses: Dict[str, set], cases: List[dict
                 mod.rec_log = []
                 try:
                     val = mod.ns["r" + n](xv, yv)
-                    cpy = ("ok", bool(val), val)
+                    # (a condition VALUE without a truth value: the library reports it as ValueError, see below)
+                    cpy = ("ok", True if isinstance(val, Amb) else bool(val), val)
                 except Exception as exc:  # noqa
                     cpy = ("exc", False, exc)
                 evaluated = sorted({p for p, _ in mod.rec_log})
@@ -483,6 +499,13 @@ def check_cases(res: CheckResult, prop_clauses: Dict[str, set], cases: List[dict
                     if got[0] != "exc" or type(got[1]) is not type(cpy[2]):
                         _viol(res, prop_clauses, "msg.replaced_by_other_exception",
                               "`{}` x={!r} y={!r}: Python raises {!r}, the call gave {!r}".format(text, xv, yv, cpy[2], got), c)
+                    continue
+                if cpy[0] == "ok" and isinstance(cpy[2], Amb):
+                    # the value of the condition has no truth value: documented ValueError chaining the original error
+                    if got[0] != "exc" or not isinstance(got[1], ValueError) or got[1].__cause__ is None:
+                        _viol(res, prop_clauses, "msg.replaced_by_other_exception",
+                              "`{}` x={!r} y={!r}: the condition value has no truth value; expected the documented "
+                              "ValueError chaining the TypeError, got {!r}".format(text, xv, yv, got), c)
                     continue
                 if cpy[1]:
                     stats["holds"] += 1
